@@ -350,11 +350,14 @@ next_ait(vbi_decoder *vbi, int pgno, int subno, cache_page **mvtp)
 				mpgno = ait->link.pgno;
 				msubno = ait->link.subno;
 
+				/* The caller gets a reference of its own. */
 				if (NULL != *mvtp)
 					cache_page_unref (*mvtp);
 
-				*mvtp = vtp;
+				*mvtp = cache_page_ref (vtp);
 			}
+
+			cache_page_unref (vtp);
 		}
 	}
 
